@@ -123,6 +123,7 @@ SIG = {
     'blockheader_from_raw': ('block.py', 'BlockHeader.from_raw', [('rawhexdata', 'Bytes')], 'Py.PyHeader'),
     'blockheader_serialize': ('block.py', 'BlockHeader.serialize_header', [('self_version', 'Int'), ('self_previous_block_hash', 'Bytes'), ('self_merkle_root', 'Bytes'), ('self_timestamp', 'Int'), ('self_target_bits', 'Int'), ('self_nonce', 'Int')], 'Bytes'),
     'blockheader_hash': ('block.py', 'BlockHeader.get_block_hash', [('hashlib_sha256', 'Bytes → Bytes')] + [('self_version', 'Int'), ('self_previous_block_hash', 'Bytes'), ('self_merkle_root', 'Bytes'), ('self_timestamp', 'Int'), ('self_target_bits', 'Int'), ('self_nonce', 'Int')], 'Bytes'),
+    'blockheader_target': ('block.py', 'BlockHeader.get_target_bits', [('self_target_bits', 'Int')], 'Bytes'),
     # the original SignatureHash: works on a deep copy of self that it mutates
     'legacy_digest': ('transactions.py', 'Transaction.get_transaction_digest',
                       [('hashlib_sha256', 'Bytes → Bytes'), ('OPS', 'List (String × Bytes)'), ('self_version', 'Bytes'),
@@ -208,7 +209,7 @@ TREEFUNS = {'tag_hashed_merkle_root': ('get_tag_hashed_merkle_root', '(Py.treeDe
 # a nested function's `nonlocal` counter, threaded: parameter in, extra result component out
 NONLOCAL_STATE = {'traverse_level': 'traversed'}
 # utils.py's tweak functions: which locals are curve points; hex strings (of an even number of digits) are modelled as the bytes they denote
-TWEAKFUNS = {'negate_privkey': set(), 'tweak_taproot_pubkey': {'P', 'Q'}, 'tweak_taproot_privkey': set()}
+TWEAKFUNS = {'negate_privkey': set(), 'tweak_taproot_pubkey': {'P', 'Q'}, 'tweak_taproot_privkey': set(), 'blockheader_target': set()}
 TWEAK_CALLS = {'point_add': 'schnorr_point_add', 'point_mul': 'schnorr_point_mul', 'full_pubkey_gen': 'schnorr_full_pubkey_gen',
                'negate_privkey': 'negate_privkey'}
 # parsers: `x.hex()` of bytes is the same data (hex strings are modelled as the bytes they denote), struct.unpack_from
